@@ -416,6 +416,15 @@ fn ill_kinded(d: &J) -> String {
     let op = d["op"].as_str().unwrap();
     let pos = d["pos"].as_u64().unwrap() as usize;
     let kind = d["kind"].as_str().unwrap();
+    if kind == "line" {
+        let mut t = String::from("1 sort bitvec 2\n2 sort bitvec 1\n3 sort array 1 1\n4 sort array 2 1\n5 sort array 1 2\n6 input 1 a\n7 input 2 c\n8 state 3 m\n9 state 1 s\n10 state 4 m2\n11 state 5 m3\n12 state 2 s1\n");
+        if op == "init" || op == "next" {
+            t.push_str(&format!("13 {op} {} {} {}\n", d["sort"], d["st"], d["ex"]));
+        } else {
+            t.push_str(&format!("13 {op} {}\n", d["ex"]));
+        }
+        return t;
+    }
     // 1: bv2, 2: bv1, 3: array 2->2 sorts; 4,5: bv2 inputs; 6: bv1 input; 7: array state; 8: bv2 state
     let mut t = String::from("1 sort bitvec 2\n2 sort bitvec 1\n3 sort array 1 1\n4 input 1 a\n5 input 1 b\n6 input 2 c\n7 state 3 m\n8 state 1 s\n");
     let arity = d["ar"].as_u64().unwrap() as usize;
@@ -526,7 +535,7 @@ fn worker_c18(args: &[String]) {
         let mut rng = seed_rng(seed.wrapping_mul(1000003).wrapping_add(i));
         let (id, text, keep_all) = if (i as usize) < ill.len() {
             let d = &ill[i as usize];
-            (format!("g{i}:{}:{}:{}", d["op"].as_str().unwrap(), d["pos"], d["kind"].as_str().unwrap()), ill_kinded(d), true)
+            (format!("g{i}:{}:{}:{}:{}:{}:{}", d["op"].as_str().unwrap(), d["pos"], d["kind"].as_str().unwrap(), d["sort"], d["st"], d["ex"]), ill_kinded(d), true)
         } else {
             let base = if i % 3 == 0 { render(&gen_file(&mut rng)) } else { corpus.choose(&mut rng).cloned().unwrap_or_default() };
             (format!("m{i}"), mutate_text(&mut rng, &base), false)
